@@ -124,7 +124,9 @@ func callGFunction(L *LState, tailcall bool) bool {
 		wantret = gfnret
 	}
 
-	if tailcall && L.Parent != nil && L.stack.Sp() == 1 {
+	// the host function was the last activation of a coroutine (called in tail position by its body, or the body
+	// itself): the coroutine ends and its resumer receives the results
+	if L.Parent != nil && L.stack.Sp() == 1 {
 		switchToParentThread(L, wantret, false, true)
 		return true
 	}
